@@ -501,7 +501,7 @@ func (ca *clusterAdmin) AlterPartitionReassignments(topic string, assignment [][
 				_, _ = ca.refreshController()
 				return rsp.ErrorCode
 			}
-			if rsp.ErrorCode > 0 {
+			if rsp.ErrorCode != ErrNoError {
 				errs = append(errs, errors.New(rsp.ErrorCode.Error()))
 			}
 
